@@ -8,6 +8,29 @@ CLAIMS = {
     ),
 }
 
+CLAIMS.update({
+    "C03": dict(
+        text="Deductive proof from the real source: (a) per shape (operands<=3 x results<=3 x dims<=5, every dim argument; ALL integer matrices, offsets, bounds, tile sizes) rotate/tile_dim/add_dim/inner_dims/canonicalize/clear_unused_dims are bijections of iteration boxes commuting with every operand map (witness form, incl. the tile_dim precondition bounds[d] % tb == 0); (b) UNBOUNDED modular proof of scheduler_backtrack (symbolic number of dims, loop cut with invariant, recursion through its own contract): every yielded schedule is iteration-equivalent to the input and every call-site precondition (rotate range, tile_dim divisibility, index ranges) holds. from_affine_map refuses non-linear maps. A native end-to-end run on enumerated concrete schedules is a bounded stand-in (also the replay search), not counted as proved.",
+        note="Trusted: pyvc VC generator + encoding (CPython differential, canaries), z3/cvc5, numpy stub SymArray, xdsl affine classes interpreted from their own source, paper lemma 'bijection commuting with operand maps => same multiset', the abstract rotate/tile_dim/inner_dims contracts restate the per-shape ones. Not covered: AutoflowScheduler IR plumbing, get_static_pattern_bounds.",
+        design_ref="DESIGN.md section 3 C03",
+    ),
+    "C09": dict(
+        text="Deductive proof from the real source: ensure_access_granularity UNBOUNDED (all strides/dims, 4 element widths): padding never decreases a stride, keeps unit strides, meets the granularity, pads < 64; AddCyclicMemoryLayout.match_and_rewrite executed as a whole through a view of dart.ScheduleOp (schedule dims<=3 x operand rank<=2, tiled and non-tiled, ALL integer bounds/coefficients/shapes satisfying the stated validity predicate): every chosen layout covers exactly the shape (product of tile bounds) and is one-to-one (steps super-increasing in assignment order); explicit layouts are left untouched. Counter-models replay on the real pattern through a real PatternRewriter.",
+        note="Trusted: as C03 plus the irdl/rewriter stubs (view), the paper lemma super-increasing => injective, spatial_dims() assumed, TiledStridedLayout.canonicalize used through its C10 contract. Validity precondition of schedules (non-negative coefficients, each loop indexes <=1 operand dim, box covers the operand) is an assumption stated in evidence.",
+        design_ref="DESIGN.md section 3 C09",
+    ),
+    "C16": dict(
+        text="Deductive proof from the real source: UNBOUNDED modular proof of scheduler_backtrack that for an arbitrary level j of every yielded schedule the template matched, every extra check held on the inner-j view and the bound does not exceed a static template bound (ghost level, frame clauses of rotate/tile_dim proved per shape); the three constraint predicates are proved equal to first-order specifications per shape (all integer matrices). TemplatePattern.matches (float SVD) is a bounded stand-in against an exact rational row-space oracle, not counted as proved.",
+        note="Trusted: as C03; matches()/extra checks are uninterpreted predicates of the inner view in the modular proof; SVD-based matching is only bounded.",
+        design_ref="DESIGN.md section 3 C16",
+    ),
+    "C19": dict(
+        text="Deductive proof from the real source, per shape with ALL integer values: AffineTransform eval/compose/from_affine_map/to_affine_map (xdsl's affine classes interpreted from their source), AccessPattern.canonicalize/inner_dims, StridePattern.canonicalize for lengths 0..6 (same address stream via coalesces_stream, idempotent, spatial strides untouched), pack_bitlist in exact bit-vector semantics for 1..8 fields (OR of shifts, def-before-use, field recovery). canonicalize_affine on expressions and attribute print/parse are bounded stand-ins (enumeration + random), not counted as proved.",
+        note="Trusted: as C03 plus arith op denotations (bit-vector mode), paper lemma coalesces_stream => identical address sequence. canonicalize_affine.py is currently only bounded (ADT-based unbounded proof planned).",
+        design_ref="DESIGN.md section 3 C19",
+    ),
+})
+
 _PENDING = "check not built yet in this round (planned in DESIGN.md section 3); not claimed"
 NOT_APPLICABLE = {f"C{i:02d}": _PENDING for i in range(1, 21)}
 NOT_APPLICABLE.update({
